@@ -67,6 +67,9 @@ func (r *Request) ToModel() map[string]any {
 					if fl.Oneof != "" {
 						fj["oneof"] = fl.Oneof
 					}
+					if fl.JSONName != "" {
+						fj["json_name"] = fl.JSONName
+					}
 					if fl.Ann.OneofValue != nil {
 						fj["oneof_value"] = *fl.Ann.OneofValue
 					}
